@@ -143,7 +143,9 @@ func runWorld(t *testing.T, p *Plan, rec *RunRecord, keepLog bool) {
 	case "srv":
 		w := NewSrvWorld(k, p)
 		reason := w.Run(maxStepsFor(p))
-		w.postRun(rec)
+		if reason == "stopped" {
+			w.postRun(rec) // end-of-run oracles need the complete teardown
+		}
 		fillRecord(rec, k, reason)
 		rec.States = w.Mon.States()
 		rec.Requests = w.Mon.Requests()
@@ -158,7 +160,7 @@ func runWorld(t *testing.T, p *Plan, rec *RunRecord, keepLog bool) {
 }
 
 func maxStepsFor(p *Plan) int {
-	return 20000 + 400*len(p.Ops)
+	return 400000 + 4000*len(p.Ops)
 }
 
 func TestWorker(t *testing.T) {
